@@ -264,9 +264,46 @@ pub fn generate(r: &mut Prng, seed: u64, run: u64) -> Scenario {
             edits.push(e);
         }
     }
+    // wholesale differences: the new release is (almost) empty, or lost every record of one / of every kind
+    let mut no_text = false;
+    if r.chance(1, 30) {
+        match r.below(3) {
+            0 => {
+                let victims: Vec<u32> = cur.terms.iter().map(|t| t.id).filter(|i| *i != 1 && *i != 118).collect();
+                for id in victims {
+                    let e = Edit::RemoveTerm { id };
+                    cur = apply(&cur, std::slice::from_ref(&e));
+                    edits.push(e);
+                }
+                // the records that are left have no terms: not expressible in the text files
+                no_text = true;
+            }
+            w => {
+                for k in KINDS {
+                    if w == 1 && k != KINDS[r.usize_below(3)] {
+                        continue;
+                    }
+                    let victims: Vec<u32> = cur.recs(k).iter().map(|x| x.id).collect();
+                    for id in victims {
+                        let e = Edit::RemoveRec { kind: k, id };
+                        cur = apply(&cur, std::slice::from_ref(&e));
+                        edits.push(e);
+                    }
+                }
+            }
+        }
+    }
     // transports that carry obsolete/replacement, mostly the same one on both sides
-    let pa = *r.pick(&[PathKind::BinV3, PathKind::Text, PathKind::BinV3, PathKind::Builder, PathKind::BinLib]);
-    let pb = if r.chance(2, 3) { pa } else { *r.pick(&[PathKind::BinV3, PathKind::Text, PathKind::Builder]) };
+    let mut pa = *r.pick(&[PathKind::BinV3, PathKind::Text, PathKind::BinV3, PathKind::Builder, PathKind::BinLib]);
+    let mut pb = if r.chance(2, 3) { pa } else { *r.pick(&[PathKind::BinV3, PathKind::Text, PathKind::Builder]) };
+    if no_text {
+        if pa == PathKind::Text {
+            pa = PathKind::BinV3;
+        }
+        if pb == PathKind::Text {
+            pb = PathKind::BinV3;
+        }
+    }
     let replicas = vec![ReplicaSpec::draw(r, pa), ReplicaSpec::draw(r, pb)];
     let mut facts = facts;
     if !replicas.iter().any(|x| x.uses_text()) && r.chance(1, 4) {
